@@ -8,6 +8,7 @@ All statements are about `Gen.verify` / `Gen.process`, the Lean functions REGENE
 Vocabulary (`ValidChain`, `Link`, `approvers`, `openedAt`, `ParamsOK`, `VerifySpec`) is in Spec.lean.
 -/
 import YouVerif.C12.Proofs
+import YouVerif.C12.ProofsVfr
 import YouVerif.C12.GenConsts
 namespace YouVerif.C12.Props
 open YouVerif.C12
@@ -229,5 +230,79 @@ example : Gen.process demoTable { number := 0, currVersion := 1 } { number := 1 
 example : (Gen.verify demoTable
     { number := 3, currVersion := 1, nextVersion := 2, nextApprovals := 1, nextVoteBefore := 4, nextSwitchOn := 5 }
     { number := 4, currVersion := 1, nextVersion := 2, nextApprovals := 2, nextVoteBefore := 4, nextSwitchOn := 5 }).1 = .err 100 := by decide
+
+/-! ## VersionForRound: which version's parameters the other subsystems use for a round
+
+`versionForRound` (ModelVfr.lean) is the hand-written model of `(*HeaderChain).VersionForRoundWithParents`, tied to
+the code by the harness' `F` correspondence stream; `Gen.protocolRoundBack` is regenerated from the source. -/
+
+/-- **The parameters in force change only `protocolRoundBack` rounds after an announced switch.**  Over a canonical
+index whose consecutive headers are verifier-accepted links (`CanonLinked`; every stored `ValidChain` is one, see
+`canonLinked_of_validChain`), if the version answered for round `r+1` differs from the one answered for round `r`
+then `r ≥ protocolRoundBack` and the header `protocolRoundBack` rounds before `r+1` is the switch block of a proposal
+announced by its parent: it sits on the announced round and carries the announced version.  In particular nothing
+changes during the first `protocolRoundBack` rounds. -/
+theorem params_version_changes_only_after_switch (V : Versions) (get : Nat → Option Hdr) (hget : CanonLinked V get)
+    (r v v' : Nat) (h1 : versionForRound V get [] r = .ok v) (h2 : versionForRound V get [] (r + 1) = .ok v')
+    (hne : v ≠ v') :
+    Gen.protocolRoundBack ≤ r ∧
+    ∃ p c, get (r - Gen.protocolRoundBack) = some p ∧ get (r + 1 - Gen.protocolRoundBack) = some c ∧
+      v = p.currVersion ∧ v' = c.currVersion ∧ c.number = p.number + 1 ∧
+      p.nextSwitchOn = c.number ∧ c.currVersion = p.nextVersion := by
+  obtain ⟨p, hp, hpv⟩ := vfr_ok_nil h1
+  obtain ⟨c, hc, hcv⟩ := vfr_ok_nil h2
+  by_cases hr : Gen.protocolRoundBack ≤ r
+  · obtain ⟨e1, e2⟩ := paramRound_succ hr
+    rw [e1] at hp; rw [e2] at hc
+    obtain ⟨hnum, hlt, hv⟩ := hget _ p c hp hc
+    have hchg : c.currVersion ≠ p.currVersion := by rw [hpv, hcv]; exact fun e => hne e.symm
+    obtain ⟨hsw, hcn, _⟩ := version_changes_only_at_switch V p c hv hchg
+    have hmod : c.number % U64 = c.number := Nat.mod_eq_of_lt (by simp only [U64]; omega)
+    rw [hmod] at hsw
+    refine ⟨hr, p, c, hp, ?_, hpv.symm, hcv.symm, hnum, hsw, hcn⟩
+    have : r + 1 - Gen.protocolRoundBack = r - Gen.protocolRoundBack + 1 := by omega
+    rw [this]; exact hc
+  · obtain ⟨e1, e2⟩ := paramRound_small (by omega : r + 1 ≤ Gen.protocolRoundBack)
+    rw [e1] at hp; rw [e2] at hc
+    rw [hp] at hc; cases hc
+    exact absurd (hpv.symm.trans hcv) hne
+
+/-- A batch's own headers are only a fallback: when the canonical index knows the deciding round, the `parents`
+argument cannot change the answer (an import batch cannot override the stored chain). -/
+theorem versionForRound_canonical_first (V : Versions) (get : Nat → Option Hdr) (parents : List Hdr) (r : Nat) (h : Hdr)
+    (hg : get (paramRound r) = some h) :
+    versionForRound V get parents r = versionForRound V get [] r := by
+  unfold versionForRound vfrHeader
+  simp only [hg]
+
+/-- The index into `parents` (a Go slice: out of range = panic) stays in range for every caller that asks about a
+round not beyond the end of its batch (`r ≤ firstNum + len(parents)`: header verification asks about the header that
+follows its parents).  Needs `protocolRoundBack ≥ 1`, which holds for the regenerated constant. -/
+theorem versionForRound_no_crash_in_batch (V : Versions) (get : Nat → Option Hdr) (f : Hdr) (rest : List Hdr) (r : Nat)
+    (hr : r ≤ f.number % U64 + (f :: rest).length) :
+    versionForRound V get (f :: rest) r ≠ .crash := by
+  unfold versionForRound
+  cases hh : vfrHeader get (f :: rest) r with
+  | none => exact absurd hh (vfrHeader_ne_none get f rest r hr)
+  | some o =>
+    cases o with
+    | none => simp
+    | some h => simp only; split <;> simp
+
+/-- the hypotheses of `params_version_changes_only_after_switch` are met by a stored valid chain, and the
+conclusion is exercised: in `demoChain` the version switches at round 5, so the parameters change between the
+answers for rounds 12 and 13 (= 5 + protocolRoundBack), and not before. -/
+example : CanonLinked demoTable (fun n => demoChain.reverse[n]?) :=
+  canonLinked_of_validChain (by
+    unfold demoChain
+    repeat (first
+      | exact ValidChain.start _ (by simp [Clean]) (by decide) (by decide)
+      | refine ValidChain.step _ _ _ ?_ ⟨by decide, by decide, by decide⟩))
+
+example : (List.range 14).map (fun r => versionForRound demoTable (fun n => demoChain.reverse[n]?) [] r) =
+    (List.replicate 13 (.ok 1)) ++ [.ok 2] := by decide
+
+/-- crash is reachable outside that guard (a caller asking far beyond its batch): Go panics there -/
+example : versionForRound demoTable (fun _ => none) [{ number := 2, currVersion := 1 }] 12 = .crash := by decide
 
 end YouVerif.C12.Props
